@@ -2,7 +2,8 @@
 (***************************************************************************)
 (* Validates records logged from the real write_syx_file / read_syx_file:  *)
 (* msgs = encodings of the list written, binfile = bytes of the binary     *)
-(* file, rbin / rtext = encodings read back from the binary / text file.   *)
+(* file, rbin / rtext = encodings read back from the binary / text file,   *)
+(* rlay = read back from a text file laid out by hand with other whitespace.*)
 (***************************************************************************)
 EXTENDS Tokenizer, Json, IOUtils
 
@@ -15,7 +16,7 @@ Spec == Init /\ [][Next]_i
 IsSysex(tok) == tok[1] = 240
 Ok(r) == LET sx == SelectSeq(r.msgs, IsSysex) IN
          /\ r.binfile = Flatten(sx)
-         /\ r.rbin = sx /\ r.rtext = sx
+         /\ r.rbin = sx /\ r.rtext = sx /\ r.rlay = sx
          /\ (r.binfile = <<>> \/ SelectSeq(ParseAll(r.binfile), IsSysex) = sx)
          /\ \A k \in DOMAIN sx : Decode(sx[k]) # Invalid
 Judge == Ok(Traces[i]) \/ PrintT(ToString(<<"REJECTED", i>>))
